@@ -137,6 +137,11 @@ def find_rule(run, model, rule="C18.find"):
                     and isinstance(e.orelse, ast.Constant) and e.orelse.value is None
                     and isinstance(e.body, ast.Subscript) and isinstance(e.body.value, ast.Name) and e.body.value.id == e.test.id and src_of(e.body.slice) == "-1"
                 )
+                if not last_of_list and isinstance(e, ast.Subscript) and isinstance(e.value, ast.Name) and e.value.id in collected and src_of(e.slice) == "-1":
+                    # ``if not xs: return None`` ... ``return xs[-1]``: the emptiness of the list is tested before
+                    gg_ = GuardGraph(flow)
+                    atoms_ = [a_ for (nid_, k_), (kn_, _at) in gg_.edge_facts.items() for a_, pol_ in kn_ if strip_sites(a_) == strip_sites(flow.term(e.value, rn))]
+                    last_of_list = any(gg_.necessary([flow.cfg.entry], [rn.id], (a_, True)) for a_ in atoms_)
                 if not last_of_list:
                     bad = bad or "returns %s" % show(strip_sites(rt))
     run.check(bad is None, rule, fi.qual, "walks the whole __wrapped__ chain and returns the innermost object carrying the lists (None if there is none)", bad or "", fi.loc())
